@@ -144,6 +144,11 @@ pub mod util;
 
 mod value;
 mod value_type;
+
+#[cfg(feature = "verif_hooks")]
+#[doc(hidden)]
+pub mod verif_hooks;
+
 mod version;
 mod vlog;
 
